@@ -90,6 +90,9 @@ func logoutAdversarial(r *core.Run, prop string) {
 		s.Cfg.SLO = ""
 		r.Probe("slo_url_unconfigured")
 	}
+	// (an SP key, so that the other API calls of the ambient traffic - metadata, signed requests - work)
+	s.Cfg.EncStyle, s.Cfg.EncKeyIdx = world.KeyField, 4
+	s.Cfg.EncCert = world.MintCert(4, s.Epoch.Add(-40*24*time.Hour), s.Epoch.Add(800*24*time.Hour), 1)
 	if !s.Build() {
 		return
 	}
@@ -299,8 +302,11 @@ func logoutAdversarial(r *core.Run, prop string) {
 	}
 	enc := world.Present(xml, compress, 6)
 	r.Sim.Advance(time.Duration(t.Int(30, "c10.delay")) * time.Second)
-	if t.Int(5, "c10.ambient") == 1 {
+	switch t.Int(5, "c10.ambient") {
+	case 1:
 		s.NeighbourNoise(enc)
+	case 2:
+		OtherAPICalls(r, s.Node.SP, 7)
 	}
 
 	var out world.Outcome
